@@ -224,7 +224,7 @@ def families(prop, tier):
                                       outcomes=['ok', 'P2', 'T1', 'X', 'map:pt', 'map:tp'])))
     # F4: bounce policy: null senders, factory returning None, headers only, failing bounces
     if prop in ('C13',):
-        for extra in (dict(), dict(null_sender=[1]), dict(factory_none=True), dict(headers_only=True)):
+        for extra in (dict(), dict(null_sender=[1]), dict(factory_none=True), dict(headers_only=True), dict(sep_bounce='late'), dict(sep_bounce='early')):
             fams.append(dict(name='bounce-%s' % ('-'.join(sorted(extra)) or 'plain'), mode='dfs', depth=5, budget=500 if q else 30000,
                              cfg=dict(backend='dict', gate_store=False, nmsgs=2, nrcpt=[3, 2], backoff=[0, None],
                                       outcomes=['ok', 'T1', 'P2', 'X', 'map:ppp:7', 'map:ptp', 'map:pp', 'map:tt:5', 'map:pt', 'map:otp'], **extra)))
